@@ -144,8 +144,11 @@ func runC04(c *Ctx) {
 		c.Ob("GROUPS-NEST", "fieldKindToWireJSONCompatibilityGroup⊑fieldKindToWireCompatibilityGroup", pkgVarLiteral(pkH, "fieldKindToWireJSONCompatibilityGroup").Pos(), bad == "", true,
 			"%d same-group pairs of the WIRE_JSON table checked against the WIRE table %s", pairs, bad)
 	}
+	c.Rule("GROUPS-DOCUMENTED", "compatibility groups never merge kinds that the protobuf documentation lists as incompatible", 2)
+	c04GroupsDocumented(c)
 	// (3) exemptions
 	c04Exemptions(c, t)
+	c04AllNames(c)
 	// (4) previous-driven adapters
 	pkU := p.Pkg(pkgCheckUtil)
 	l := newLabeler(p, checkPkgs(p))
@@ -391,4 +394,127 @@ func c04GuardedCall(p *Prog, info *types.Info, fd *ast.FuncDecl, param types.Obj
 		return true
 	})
 	return out
+}
+
+
+// c04AllNames: the reserved-name exemption for a deleted enum number holds only if ALL names of that number are reserved:
+// inside the loop over the previous names the only return is `false` under a negated NameInReservedNames test, and the
+// `true` follows the loop.
+func c04AllNames(c *Ctx) {
+	p := c.P
+	const rule = "EXEMPTION-WEAKENS"
+	fr := p.Func(pkgCheckHandle, "isDeletedEnumValueAllowedWithRules")
+	if fr == nil {
+		return
+	}
+	info := fr.Info()
+	ok, found := true, false
+	ast.Inspect(fr.Decl.Body, func(n ast.Node) bool {
+		rs, isRange := n.(*ast.RangeStmt)
+		if !isRange {
+			return true
+		}
+		found = true
+		ast.Inspect(rs.Body, func(m ast.Node) bool {
+			r, isRet := m.(*ast.ReturnStmt)
+			if !isRet || len(r.Results) != 1 {
+				return true
+			}
+			tv, has := info.Types[r.Results[0]]
+			if !has || tv.Value == nil || tv.Value.ExactString() != "false" {
+				ok = false // a `return true` (or a computed value) inside the loop makes the exemption existential
+				return true
+			}
+			// guarded by !NameInReservedNames(...)
+			guarded := false
+			for cur := p.Parent(r); cur != nil && cur != rs; cur = p.Parent(cur) {
+				if ifs, isIf := cur.(*ast.IfStmt); isIf {
+					if ue, isU := ast.Unparen(ifs.Cond).(*ast.UnaryExpr); isU && ue.Op == token.NOT {
+						if call, isCall := ue.X.(*ast.CallExpr); isCall {
+							if fn := Callee(info, call); fn != nil && fn.Name() == "NameInReservedNames" {
+								guarded = true
+							}
+						}
+					}
+				}
+			}
+			if !guarded {
+				ok = false
+			}
+			return true
+		})
+		return true
+	})
+	c.Ob(rule, fr.ID()+"/all-names-reserved", fr.Decl.Pos(), ok && found, true,
+		"the name exemption is universal: inside the loop over the deleted number's names the only return is `false` for a name that is not reserved (all aliases must be reserved): %v", ok && found)
+}
+
+func c04GroupsDocumented(c *Ctx) {
+	p := c.P
+	pkH := p.Pkg(pkgCheckHandle)
+	if pkH == nil || pkgVarLiteral(pkH, "fieldKindToWireCompatibilityGroup") == nil || pkgVarLiteral(pkH, "fieldKindToWireJSONCompatibilityGroup") == nil {
+		c.Fail("GROUPS-DOCUMENTED", "tables", token.NoPos, "compatibility tables not found")
+		return
+	}
+	read := func(name string) map[string]string {
+		cl := pkgVarLiteral(pkH, name)
+		out := map[string]string{}
+		for _, el := range cl.Elts {
+			kv, ok := el.(*ast.KeyValueExpr)
+			if !ok {
+				continue
+			}
+			k, okk := pkH.TypesInfo.Types[kv.Key]
+			v, okv := pkH.TypesInfo.Types[kv.Value]
+			if okk && okv && k.Value != nil && v.Value != nil {
+				out[k.Value.ExactString()] = v.Value.ExactString()
+			}
+		}
+		return out
+	}
+	// documented oracles for the two partitions (protobuf language guide: "updating a message type" and the proto3 JSON
+	// mapping): kinds sharing a WIRE group share a documented wire-compatibility class, kinds sharing a WIRE_JSON group also
+	// share their JSON representation
+	kindName := func(v string) string {
+		for name, cv := range enumConstants(pkH.TypesInfo.TypeOf(pkgVarLiteral(pkH, "fieldKindToWireCompatibilityGroup")).Underlying().(*types.Map).Key()) {
+			if cv.ExactString() == v {
+				return name
+			}
+		}
+		return v
+	}
+	wireClass := map[string]string{
+		"Int32Kind": "varint", "Int64Kind": "varint", "Uint32Kind": "varint", "Uint64Kind": "varint", "BoolKind": "varint",
+		"Sint32Kind": "zigzag", "Sint64Kind": "zigzag", "Fixed32Kind": "fixed32", "Sfixed32Kind": "fixed32",
+		"Fixed64Kind": "fixed64", "Sfixed64Kind": "fixed64", "StringKind": "string", "BytesKind": "bytes", "DoubleKind": "double",
+		"FloatKind": "float", "GroupKind": "group", "MessageKind": "message", "EnumKind": "enum",
+	}
+	jsonRepr := map[string]string{
+		"Int32Kind": "number", "Uint32Kind": "number", "Sint32Kind": "number", "Fixed32Kind": "number", "Sfixed32Kind": "number",
+		"Int64Kind": "decimal-string", "Uint64Kind": "decimal-string", "Sint64Kind": "decimal-string", "Fixed64Kind": "decimal-string", "Sfixed64Kind": "decimal-string",
+		"BoolKind": "bool", "StringKind": "string", "BytesKind": "base64", "DoubleKind": "float", "FloatKind": "float",
+		"GroupKind": "object", "MessageKind": "object", "EnumKind": "enum-name",
+	}
+	checkTable := func(name string, tbl map[string]string, oracles ...map[string]string) {
+		bad := ""
+		for _, a := range sortedKeys(tbl) {
+			for _, b := range sortedKeys(tbl) {
+				if a >= b || tbl[a] != tbl[b] {
+					continue
+				}
+				ka, kb := kindName(a), kindName(b)
+				for _, o := range oracles {
+					if o[ka] != o[kb] {
+						bad = fmt.Sprintf("%s and %s share group %s but are documented as %s vs %s", ka, kb, tbl[a], o[ka], o[kb])
+					}
+				}
+			}
+		}
+		c.Ob("GROUPS-DOCUMENTED", name, pkgVarLiteral(pkH, name).Pos(), bad == "", true, "no group of %s merges kinds with different documented encodings %s", name, bad)
+	}
+	wire, wj := read("fieldKindToWireCompatibilityGroup"), read("fieldKindToWireJSONCompatibilityGroup")
+	if len(wire) >= 10 && len(wj) >= 10 {
+		checkTable("fieldKindToWireCompatibilityGroup", wire, wireClass)
+		checkTable("fieldKindToWireJSONCompatibilityGroup", wj, wireClass, jsonRepr)
+	}
 }
